@@ -61,7 +61,9 @@ fn any_forward(with_props: bool, qn: u8, retain: bool) -> (Forward, [u8; 1], [u8
         _ => d::QoS::ExactlyOnce,
     };
     let pkid: u16 = kani::any();
-    kani::assume((qn == 0) == (pkid == 0));
+    // QoS>0 needs an id; a QoS0 forward may still carry the publisher's id (the router re-grades
+    // the QoS to the subscription's without clearing it), so for QoS0 the id is arbitrary
+    kani::assume(qn == 0 || pkid != 0);
     let mut publish = d::Publish::new(Bytes::copy_from_slice(&topic), Bytes::copy_from_slice(&payload), retain);
     publish.verif_set_header(false, q, pkid);
     let f = Forward {
